@@ -19,6 +19,10 @@ type Loop struct {
 	RangeOf  ssa.Value // the slice/array/string/map being ranged over
 	Index    ssa.Value // the value that indexes RangeOf inside the body (slices)
 	Next     *ssa.Next // for map/string range loops
+	// index loops over a suffix of a slice: for i := Start; i < len(PartialOf); i++
+	PartialOf    ssa.Value
+	PartialIndex ssa.Value
+	Start    int64     // first index value (0 for whole-range loops)
 	BodySucc int       // header successor index that enters the body
 	ExitSucc int       // header successor index that leaves the loop
 }
@@ -26,8 +30,9 @@ type Loop struct {
 // LoopInfo holds all loops of a function.
 type LoopInfo struct {
 	Loops   []*Loop
-	byIndex map[ssa.Value]*Loop
-	byNext  map[*ssa.Next]*Loop
+	byIndex   map[ssa.Value]*Loop
+	byNext    map[*ssa.Next]*Loop
+	byPartial map[ssa.Value]*Loop
 }
 
 func constInt(v ssa.Value) (int64, bool) {
@@ -52,7 +57,7 @@ func lenArg(v ssa.Value) ssa.Value {
 
 // FindLoops computes the natural loops of fn.
 func FindLoops(fn *ssa.Function) *LoopInfo {
-	li := &LoopInfo{byIndex: map[ssa.Value]*Loop{}, byNext: map[*ssa.Next]*Loop{}}
+	li := &LoopInfo{byIndex: map[ssa.Value]*Loop{}, byNext: map[*ssa.Next]*Loop{}, byPartial: map[ssa.Value]*Loop{}}
 	if fn == nil || len(fn.Blocks) == 0 {
 		return li
 	}
@@ -85,6 +90,9 @@ func FindLoops(fn *ssa.Function) *LoopInfo {
 	}
 	for _, l := range li.Loops {
 		l.recogniseRange()
+		if l.PartialIndex != nil {
+			li.byPartial[l.PartialIndex] = l
+		}
 		if l.RangeOf != nil {
 			if l.Index != nil {
 				li.byIndex[l.Index] = l
@@ -187,6 +195,16 @@ func (l *Loop) recogniseRange() {
 	if ph, ok := isLoopPhi(bin.X, 0); ok {
 		l.RangeOf = x
 		l.Index = ph
+		return
+	}
+	// partial form: for i := k; i < len(X); i++ with constant k > 0 (not a whole-range loop)
+	for k := int64(1); k <= 4; k++ {
+		if ph, ok := isLoopPhi(bin.X, k); ok {
+			l.PartialOf = x
+			l.PartialIndex = ph
+			l.Start = k
+			return
+		}
 	}
 }
 
